@@ -34,6 +34,7 @@ func selftest(r *evid.Run) {
 		{"MC_Cli", "MC_C16_asbuilt.cfg", "TruthfulExit"},
 		{"MC_PS", "MC_PS_asbuilt.cfg", "SplitAgreement"},
 		{"MC_PS", "MC_PS_mixed.cfg", "ParseAgreement"},
+		{"MC_Opt", "MC_Opt_beforefix_violates.cfg", ""}, // FamiliesAgree or OptionsMeanWhatTheySay, whichever TLC meets first
 	}
 	for _, a := range asbuilt {
 		res, err := tlcrun.Run(tlcrun.Opts{SpecDir: specDir, Module: a.module, Cfg: a.cfg, Timeout: 5 * time.Minute}, nil)
@@ -66,6 +67,27 @@ func selftest(r *evid.Run) {
 	} else {
 		fmt.Println("selftest: TraceDoc accepts the recorded call and rejects the corrupted row")
 		r.Count("trace_corruptions_rejected", 1)
+	}
+	// 2b. filesystem traces: a recorded mkdir is accepted; the same record with one created directory missing
+	// from the logged snapshot violates C06_ExactlyTheTree, with the logged result changed it is model drift
+	{
+		tk := func(p ...string) []string { return p }
+		before := fsJ{Dirs: [][]string{tk("t")}, Files: [][]string{}}
+		after := fsJ{Dirs: [][]string{tk("t"), tk("t", "SL", "a"), tk("t", "SL", "a", "SL", "b")}, Files: [][]string{}}
+		short := fsJ{Dirs: [][]string{tk("t"), tk("t", "SL", "a")}, Files: [][]string{}}
+		reset := func() *fsEv {
+			return (&fsEv{Op: "reset", Items: []itemJ{{1, tk("a")}, {2, tk("b")}}, Fs: before}).fill()
+		}
+		evs := []any{reset(), (&fsEv{Op: "mkdir", Route: "md", Fs: after, K: "ok"}).fill(),
+			reset(), (&fsEv{Op: "mkdir", Route: "md", Fs: short, K: "ok"}).fill(),
+			reset(), (&fsEv{Op: "mkdir", Route: "md", Fs: before, K: "exists"}).fill()}
+		bad, ok := validateTraceIn(r, "TraceFs", "TraceFs.cfg", "ftrace.ndjson", evs)
+		if !ok || bad[1] != "" || !strings.Contains(bad[3], "P:C06_ExactlyTheTree") || !strings.Contains(bad[5], "M:") {
+			fail("TraceFs: good=%q missing-directory=%q wrong-result=%q", bad[1], bad[3], bad[5])
+		} else {
+			fmt.Println("selftest: TraceFs accepts the recorded mkdir, rejects the snapshot with a directory missing (Layer P) and the wrong result (Layer M)")
+			r.Count("trace_corruptions_rejected", 2)
+		}
 	}
 	// 3. pipeline traces
 	pool := workerPool(r, 2)
